@@ -868,22 +868,22 @@ func c05Mutex(c *Ctx, m *Module, fns []*ssa.Function) {
 
 // c05ErrorsChecked: error results on the host-facing paths are consumed, or tabled as best effort.
 var c05IgnoreTable = map[string]string{ // "function|callee" -> reason (one named site each)
-	"(*internal/counter.mappedFile).close$1|var:internal/counter.munmap": "unmapping a mapping that is being discarded; nothing to do on failure",
-	"(*internal/counter.mappedFile).close$1|(*os.File).Close":            "best-effort close of the counter file's descriptor",
-	"(*internal/upload.uploader).findWork|os.MkdirAll":                   "creates the upload directory opportunistically; a failure surfaces at the first write into it",
-	"(*internal/upload.uploader).uploadReportContents|(*os.File).Close":  "the lock file is only a name; its descriptor carries no data",
-	"(*internal/upload.uploader).uploadReportContents|os.Remove":         "lock release / disposal of the local copy: a leftover is retried or ignored by the next run",
-	"telemetry.acquireUploadToken|os.Remove":                             "a stale token that cannot be removed makes the exclusive create fail, which is handled",
-	"telemetry.acquireUploadToken|(*os.File).Close":                      "the token file is only a name",
-	"telemetry.child|os.Setenv":                                          "Setenv fails only for invalid keys; the key is a constant",
-	"telemetry.child|(*golang.org/x/sync/errgroup.Group).Wait":           "sidecar process: both goroutines return nil",
-	"telemetry.startChild|(*os.File).Close":                              "parent's copy of the sidecar log descriptor",
-	"telemetry.startChild$1|(*os/exec.Cmd).Wait":                         "reaping the sidecar; its exit status does not concern the host",
-	"internal/counter.debugFatalf|fmt.Fprintf":                           "debug output to stderr",
-	"internal/counter.debugPrintf|fmt.Fprintf":                           "debug output to stderr",
-	"internal/upload.Run|(*internal/upload.uploader).Close":              "closing the debug log file at the end of the run",
-	"internal/mmap.munmapFile|golang.org/x/sys/windows.CloseHandle":      "(windows) releasing the mapping handle after the view was unmapped; the error of the unmap itself is the one returned",
-	"internal/mmap.munmapFile|(*os.File).Close":                          "(windows) descriptor of a mapping being dropped: data is written through the view, nothing is buffered in the descriptor",
+	"(*internal/counter.mappedFile).close|var:internal/counter.munmap":  "unmapping a mapping that is being discarded; nothing to do on failure",
+	"(*internal/counter.mappedFile).close|(*os.File).Close":             "best-effort close of the counter file's descriptor",
+	"(*internal/upload.uploader).findWork|os.MkdirAll":                  "creates the upload directory opportunistically; a failure surfaces at the first write into it",
+	"(*internal/upload.uploader).uploadReportContents|(*os.File).Close": "the lock file is only a name; its descriptor carries no data",
+	"(*internal/upload.uploader).uploadReportContents|os.Remove":        "lock release / disposal of the local copy: a leftover is retried or ignored by the next run",
+	"telemetry.acquireUploadToken|os.Remove":                            "a stale token that cannot be removed makes the exclusive create fail, which is handled",
+	"telemetry.acquireUploadToken|(*os.File).Close":                     "the token file is only a name",
+	"telemetry.child|os.Setenv":                                         "Setenv fails only for invalid keys; the key is a constant",
+	"telemetry.child|(*golang.org/x/sync/errgroup.Group).Wait":          "sidecar process: both goroutines return nil",
+	"telemetry.startChild|(*os.File).Close":                             "parent's copy of the sidecar log descriptor",
+	"telemetry.startChild|(*os/exec.Cmd).Wait":                          "reaping the sidecar; its exit status does not concern the host",
+	"internal/counter.debugFatalf|fmt.Fprintf":                          "debug output to stderr",
+	"internal/counter.debugPrintf|fmt.Fprintf":                          "debug output to stderr",
+	"internal/upload.Run|(*internal/upload.uploader).Close":             "closing the debug log file at the end of the run",
+	"internal/mmap.munmapFile|golang.org/x/sys/windows.CloseHandle":     "(windows) releasing the mapping handle after the view was unmapped; the error of the unmap itself is the one returned",
+	"internal/mmap.munmapFile|(*os.File).Close":                         "(windows) descriptor of a mapping being dropped: data is written through the view, nothing is buffered in the descriptor",
 }
 
 func c05ErrorsChecked(c *Ctx, m *Module, fns []*ssa.Function) {
@@ -940,6 +940,9 @@ func c05ErrorsChecked(c *Ctx, m *Module, fns []*ssa.Function) {
 			}
 			if cn == "(io.ReadCloser).Close" && strings.HasSuffix(describe(cs.Common().Value), ".Body") {
 				continue // closing something that is only read (a response body): no data can be lost
+			}
+			if (cn == "io.Copy" || cn == "io.CopyN") && strings.Contains(describe(cs.Common().Args[0]), "global:io.Discard") {
+				continue // draining a reader into io.Discard: nothing is kept, so nothing can be lost
 			}
 			dropped++
 			reason, tabled := c05IgnoreTable[fname(f)+"|"+cn]
